@@ -17,6 +17,7 @@ TAILS = {
     8: ['€!', '\U00010348 !\n', '!€!\U00010348€'],
     9: ['if', 'ifx '],
     11: ['func f()', 'fo for x1'],
+    16: [' if in ab 12', 'inx 1 i'],
 }
 
 
